@@ -508,7 +508,7 @@ Proof.
   - (* AEpSockRemove *)
     destruct (nth_error (eps s) e) as [x|] eqn:E; [|inv_some H; same].
     destruct (e_freed x); [inv_some H; same|].
-    destruct (negb (e_closed x)); [inv_some H; same|].
+    destruct (negb (e_closed x && e_stopped x)); [inv_some H; same|].
     destruct (e_onlist x) eqn:Eo; inv_some H; [|same].
     ep_facts s e (fun x => eset_onlist x false) x E.
     gen_plain; [| ele_at E |]; ecs x; bdestr; lia.
@@ -586,6 +586,7 @@ Proof.
     destruct k as [c|].
     + destruct (nth_error (ctxs s) c) as [x|] eqn:E; [|inv_some H; same].
       destruct (c_freed x); [inv_some H; same|].
+      destruct (negb (c_pub x)); [inv_some H; same|].
       destruct (has_aio a (subm s)); [inv_some H; same|].
       destruct blocks; inv_some H; [|same].
       apply cert_gen; [reflexivity|reflexivity| |right; split; [ele|split; [reflexivity|unfold Ltail; simpl; lia]]].
